@@ -1,12 +1,11 @@
-\* C18 quick (headers): TraceparentFilter with sampler AND in_sampled_trace_filter(true); 1 thread, <= 2 spans, <= 3 frames, nesting <= 3;
-\* incoming headers sampled(trace 101) / unsampled(trace 102) / invalid(no ids), nested (mismatched) header pushes, Frame::current, events everywhere; every transition replayed.
+\* C18 thorough (replay 3, sampled-trace filter on): 2 threads, <= 2 spans, <= 3 frames, nesting <= 2, headers sampled / unsampled other trace / invalid (no ids), Frame::current hand-off; every transition replayed.
 SPECIFICATION Spec
 CONSTANTS
-    NThreads = 1
+    NThreads = 2
     MaxSpans = 2
     MaxFrames = 3
     MaxTasks = 0
-    MaxDepth = 3
+    MaxDepth = 2
     Headers <- MC_Headers3
     InSampled = TRUE
     SnapshotOnPush = TRUE
